@@ -16,8 +16,13 @@ def csv_market(rng, assets, d0, d1, exact, late=None):
     for a in assets:
         p = bl.dy(rng, 8, 250, 8)
         rows = []
+        blank_lead = late is not None and rng.random() < 0.6     # aligned export: early rows exist but are blank
         for d in range(d0 - 3, d1 + 4):
-            if sl.weekday(d) > 4 or (late and d < late.get(a, 0)):
+            if sl.weekday(d) > 4:
+                continue
+            if late and d < late.get(a, 0):
+                if blank_lead:
+                    rows.append([d, None, None, None])
                 continue
             if exact:
                 o = max(1.0, p + rng.randint(-12, 12) / 8)
@@ -101,14 +106,39 @@ class C07(Prop):
                 cfg['param'] = 1.0
                 c['stream'] = 'volfilter:' + cfg['rebal'][0]
             d0, d1 = cfg['start'] // DAY, cfg['end'] // DAY
+            late = None
             if rng.random() < 0.5:
                 late = None
-                if rng.random() < 0.4:
+                if rng.random() < 0.6:
                     late = dict((a, d0 + rng.randint(0, max(1, (d1 - d0) // 2))) for a in rng.sample(c['assets'], 1))
+                    if rng.random() < 0.5:
+                        # the asset's first bar is the business day after the first scheduled rebalance
+                        from .c13 import expected as sched_expected
+                        r = cfg['rebal']
+                        sc = sched_expected({'which': {'weekly': 'weekly', 'daily': 'daily', 'eom': 'end_of_month', 'bah': 'buy_and_hold'}[r[0]],
+                                             'start': cfg['start'], 'stop': cfg['end'], 'pm': False,
+                                             'weekday': (r[1] if r[0] == 'weekly' else 'MON')})
+                        sc = [t for t in sc if cfg.get('burn') is None or t >= cfg['burn']]
+                        if sc:
+                            R = sc[0] // DAY
+                            nxt = R + 1
+                            while sl.weekday(nxt) > 4:
+                                nxt += 1
+                            late = dict((a, nxt) for a in list(late))
+                            c['_force_T'] = R
                 c['market'] = csv_market(rng, c['assets'], d0, d1, c['exact'], late)
                 c['stream'] += ':csv'
             days = sl.bdays_between(d0, d1)
             c['T'] = rng.choice(days) if days else d0
+            if c['market']['kind'] == 'csv' and late and rng.random() < 0.6:
+                # cut right where an asset's data begin: the day before, the first day, the day after
+                L = list(late.values())[0]
+                near = [d for d in days if L - 4 <= d <= L + 1]
+                if near:
+                    c['T'] = rng.choice(near[-3:])
+            if c.get('_force_T') is not None and c['market']['kind'] == 'csv':
+                c['T'] = c.pop('_force_T')
+            c.pop('_force_T', None)
             c['mode_future'] = rng.choice(['rewrite', 'shuffle', 'remove'])
             c['market2'] = future_rewrite(rng, c['market'], c['T'], c['mode_future'])
             c['mode'] = 'pair'
